@@ -1,14 +1,110 @@
-"""C05 — after any LPC error the machine state is what it was before the failed call (DESIGN §3 C05)."""
+"""C05 — after any LPC error the machine state is what it was before the failed call (DESIGN §3 C05).
+
+E2 + hook H1.  Nesting shapes = compositions of frame kinds (h/h_vmerr.c: vm_kinds[]); for every shape P and every
+instruction boundary k = 1..N(P) the shape is re-run with a catchable error (second pass: a thrown value) raised
+at dispatch k, once uncaught to a driver-style entry and once under a top-level catch (catch is also a frame kind, so
+every placement of a catch inside the nesting is a shape of its own).  A third part puts 15 genuine error sites at
+the leaf of every shape.  Oracles: register snapshot at the driver entry and at every catch point that completes,
+the value every catch yields, and a fixed probe evaluation compared with a fresh driver."""
+import json, os
 import vlib
 LEVEL = "fault_enumeration"
 SRC = ["h/h_c05.c", "h/h_vmerr.c", "wrap/w_vmerr_simulate.c", "wrap/w_vmerr_errctx.c"]
 STEM = ["simulate.c", "error_context.c"]
-
+JOBS = int(os.environ.get("VERIF_JOBS", "16"))
 HARNESSES = {"h_c05": (SRC, dict(replace_stem=STEM))}
 
+
 def build(ck):
-    return {"h_c05": ck.harness("h_c05", SRC, replace_stem=STEM)}
+    return {"h_c05": ck.harness("h_c05", SRC, profile="asan", replace_stem=STEM),
+            "h_c05p": ck.harness("h_c05p", SRC, profile="plain", replace_stem=STEM)}
+
+
+RULE = ("nesting shapes = all compositions up to depth D of the frame kinds K (38 kinds: call, inherited call, call_other (object, "
+        "array of objects), local/functional/anonymous/efun/bound-argument function pointer, simul_efun, catch, filter (funptr, by name, "
+        "mapping), map (array, mapping, string), sort_array (funptr, by name), unique_array, unique_mapping, implode with function, "
+        "create() via load, global initializer via load, create() via clone, init() via move, move_or_destruct via destruct of a "
+        "container, add_action verb via command() (by name, funptr with carry-over args), catch_tell via tell_object, id() via present, "
+        "master applies valid_read/object_name(safe_apply)/creator_file/valid_object/valid_seteuid/valid_bind/valid_override(compile time) "
+        "made by efuns); element = (shape P, uncaught | under a top-level catch, k) for EVERY k = 1..N(P) (N measured in a fault-free "
+        "run): the hook raises error(\"*verif fault k\") [pass 2: throw(({1,\"t\"}))] at dispatch k; part 'sites': 15 genuine error sites "
+        "(error(), throw(), division by zero, index out of bounds, bad operand, call_other on 0, efun bad argument, sprintf error, "
+        "index error inside foreach, too deep recursion, eval cost, stack overflow, load of a missing / non-compiling file, "
+        "destruct(this_object()) then error) as the leaf of every shape; one process per element")
+
+ASSUME = ["driver-style entry = save_context/setjmp/restore_context/pop_context around apply(), as backend() and call_out() do",
+          "num_objects_this_thread is not compared for the 32 shapes whose fault-free run already changes it (clone_object() inside a "
+          "create() that runs during a load zeroes the counter, the load then decrements it to -1): not an error-path effect",
+          "the probe evaluation uses its own objects; hooks armed but not consumed by the aborted shape are cleared before it "
+          "(legitimate side effects performed before the error)",
+          "process_input/input_to/notify_fail-function frames need an interactive connection and are exercised by C09/C12, not here",
+          "catch refuses limit errors by design (C04); for those the 'catch yields the raised message' clause is not applied"]
+
+
+def fix_replays(ck):
+    """replay by explicit element (--elem=path/variant/k/leaf/mode) so that a replay file does not depend on the enumeration order"""
+    for key, info in ck.fails.items():
+        desc = (info["record"].get("desc") or "")
+        first = desc.split("\n", 1)[0]
+        if first.startswith("elem="):
+            info["args"] = ["--" + first]
+            info["fail"]["index"] = 0
+
+
+def totals(ck):
+    out = {}
+    for p in ck.parts:
+        f = os.path.join(vlib.OUT, "%s-%s.jsonl.keys" % (ck.pid, p["part"]))
+        if os.path.exists(f):
+            try:
+                for k, n in json.load(open(f)).items():
+                    out[k] = out.get(k, 0) + n
+            except Exception:
+                pass
+    return out
+
 
 def run(ck):
-    exe = build(ck)["h_c05"]
-    ck.finish({})
+    ex = build(ck)
+    a, p = ex["h_c05"], ex["h_c05p"]
+    J = JOBS
+    if ck.tier == "quick":
+        ck.enum(p, ["--depth=2", "--kinds=core", "--mode=error"], "d2-core-error", batch=64, deadline_s=100, jobs=J)
+        ck.enum(p, ["--depth=1", "--kinds=all", "--mode=error"], "d1-all-error", batch=64, deadline_s=40, jobs=J)
+        ck.enum(p, ["--depth=1", "--kinds=all", "--mode=throw"], "d1-all-throw", batch=64, deadline_s=40, jobs=J)
+        ck.enum(p, ["--depth=1", "--kinds=all", "--part=sites"], "d1-sites", batch=64, deadline_s=40, jobs=J)
+        ck.enum(a, ["--depth=1", "--kinds=all", "--mode=error"], "asan-d1-all-error", batch=32, deadline_s=60, jobs=J)
+    else:
+        ck.enum(p, ["--depth=3", "--kinds=core", "--mode=error"], "d3-core-error", batch=64, deadline_s=560, jobs=J)
+        ck.enum(p, ["--depth=3", "--kinds=core", "--mode=throw"], "d3-core-throw", batch=64, deadline_s=560, jobs=J)
+        ck.enum(p, ["--depth=2", "--kinds=all", "--mode=error"], "d2-all-error", batch=64, deadline_s=200, jobs=J)
+        ck.enum(p, ["--depth=2", "--kinds=all", "--mode=throw"], "d2-all-throw", batch=64, deadline_s=200, jobs=J)
+        ck.enum(p, ["--depth=2", "--kinds=all", "--part=sites"], "d2-sites", batch=64, deadline_s=120, jobs=J)
+        ck.enum(a, ["--depth=2", "--kinds=all", "--mode=error"], "asan-d2-all-error", batch=32, deadline_s=420, jobs=J)
+        ck.enum(a, ["--depth=1", "--kinds=all", "--mode=throw"], "asan-d1-all-throw", batch=32, deadline_s=60, jobs=J)
+        ck.enum(a, ["--depth=1", "--kinds=all", "--part=sites"], "asan-d1-sites", batch=32, deadline_s=60, jobs=J)
+    fix_replays(ck)
+    cov = vlib.enum_coverage(ck.parts, RULE, "fault_raised",
+                             extra={"fault_positions": sum(p_.get("total", 0) for p_ in ck.parts),
+                                    "caught_by_catch": sum(p_.get("counters", {}).get("caught_by_catch", 0) for p_ in ck.parts),
+                                    "reached_driver": sum(p_.get("counters", {}).get("reached_driver", 0) for p_ in ck.parts),
+                                    "swallowed_by_safe_apply": sum(p_.get("counters", {}).get("swallowed_by_safe_apply", 0) for p_ in ck.parts),
+                                    "catch_points_checked": sum(p_.get("counters", {}).get("catch_points_checked", 0) for p_ in ck.parts),
+                                    "failing_elements_per_key": totals(ck)})
+    ck.finish(cov, assumptions=ASSUME)
+
+
+def selftest(ck):
+    """break the observation (not the repo): each oracle must fire with its own key"""
+    ex = build(ck)
+    want = {1: "C05:sp-not-restored:driver-entry:fault-uncaught", 2: "C05:command_giver-not-restored:catch-point", 3: "C05:probe:"}
+    bad = 0
+    for st, sub in want.items():
+        ck2 = vlib.Check("C05", "quick", 0, LEVEL)
+        ck2.enum(ex["h_c05p"], ["--depth=1", "--kinds=call,catch,call_other", "--mode=error", "--selftest=%d" % st], "selftest%d" % st, batch=64, jobs=JOBS)
+        hit = [k for k in ck2.fails if sub in k]
+        if ck2.broken or not hit:
+            print("SELFTEST-FAILED C05 variant %d: no key containing %r (%s)" % (st, sub, ck2.broken or sorted(ck2.fails)[:5])); bad = 1
+        else:
+            print("selftest %d ok: %s" % (st, hit[:2]))
+    return bad
